@@ -51,6 +51,7 @@ def model (args : List String) : Option String :=
 
 def judge (args obs : List String) : Bool :=
   if args.head? == some "mpbad" then Driver.Multipart.judgeBad obs && !obs.contains "PANIC" else
+  if args.head? == some "mpbadE" then Driver.Multipart.judgeBadE obs && !obs.contains "PANIC" else
   if args.head? == some "limit" then
     -- data over the limit may be dropped only if that is flagged
     (match model args with
